@@ -20,7 +20,8 @@ TEXT = {
             "write_all is valid UTF-8 (S: U8); explicit panic calls are guarded and str byte-offset slicing uses only "
             "offsets that are char boundaries (N: PX); no usize subtraction of the curve length fit can go below zero under "
             "the symbolically tracked vector lengths (N: LS); the Bezier scratch vectors are grown for the very slice of control "
-            "points before the code that indexes them, on every path (N: BZ-S). Not decided: index/overflow "
+            "points before the code that indexes them, on every path (N: BZ-S); the lossy UTF-8 replacement loop ends when the "
+            "input stops inside a character (N). Not decided: index/overflow "
             "panics elsewhere, termination of numeric loops.",
             "error-provenance and swallow dataflow, unsafe-guard dominance, allocation-bound backward slices over MIR"),
     'C02': ("Partial, table level (N): every key the decoder reads is written by the writer of the same section "
